@@ -432,6 +432,124 @@ theorem oneway_route_not_reversed (recursive : Bool) (t t' : Table) (src dst : N
     · simp [fullLocal, tableGet, List.find?, hk2, newExtendedRoute]
     · simp [tableGet, List.find?, hk1]
 
+/- ================================================================ the Vivaldi coordinate term, given by the model -/
+
+/-- **Latency = Σ link latencies + Σ over the Vivaldi segments of the model's coordinate term** — full strength.
+For every platform whose Vivaldi zones answer what the model of `VivaldiZone::get_local_route` answers
+(`FollowsVivaldi`: Star part, gateways, assertion when coordinates are missing, and the term
+`vivaldiTerm (coords src) (coords dst)` = `(√((x₁-x₂)²+(y₁-y₂)²) + |h₁| + |h₂|) / 1000`) and whose other zones add
+nothing beyond their links: the latency of every route is the sum of its links' latencies plus, for each Vivaldi
+segment crossed, in path order, the term computed from the coordinates of the two ends of that segment.
+`ρ` is the numeric evaluation of a term in latency units (the library: double sqrt, `/ 1000.0`); it is arbitrary here —
+`latency_is_sum_vivaldi_exact` and `latency_is_sum_vivaldi_bracket` say what follows when it is exact / accurate. -/
+theorem latency_is_sum_vivaldi (P : Plat) (hT : TreeLike P) (V : Viv) (ρ : VTerm → Int)
+    (hV : FollowsVivaldi P V ρ) (hN : OnlyVivaldiAdds P V)
+    (f : Nat) (src dst : Np) (l : List Lk) (t : Int) (h : globalRoute P f src dst [] 0 = .ok (l, t)) :
+    ∃ segs, specRoute P f src dst = .ok segs ∧ l = flatLinks segs ∧
+      t = sumLat P l + ((vivTerms V segs).map ρ).sum := by
+  obtain ⟨segs, hs, hl, ht⟩ := latency_is_sum P hT f src dst l t h
+  refine ⟨segs, hs, hl, ?_⟩
+  rw [ht, segsExtra_eq_vivTerms P V ρ hV hN segs (spec_segments_declared P f src dst segs hs)]
+
+/-- each of those terms is the model's term of a Vivaldi segment of the route: `vivaldiTerm` of the coordinates of the
+segment's two ends (a local route of a Vivaldi zone, declared in the platform) -/
+theorem vivaldi_terms_are_segment_terms (P : Plat) (V : Viv) (f : Nat) (src dst : Np) (segs : List Seg)
+    (hs : specRoute P f src dst = .ok segs) (t : VTerm) (ht : t ∈ vivTerms V segs) :
+    ∃ z a b r ca cb, Seg.loc z a b r ∈ segs ∧ P.loc z a b = some r ∧ V.isViv z = true ∧
+      V.coords a = some ca ∧ V.coords b = some cb ∧ t = vivaldiTerm ca cb := by
+  obtain ⟨z, a, b, r, ca, cb, hm, hz, hca, hcb, e⟩ := vivTerms_mem V segs t ht
+  exact ⟨z, a, b, r, ca, cb, hm, spec_segments_declared P f src dst segs hs _ hm, hz, hca, hcb, e⟩
+
+/-- **Exact form** (latencies in seconds, `U` latency units per second): when the evaluation is exact — `ρ term / U` is
+the value of the term, i.e. `v * 1000 - (|h₁| + |h₂|)` is the non-negative square root of `(x₁-x₂)² + (y₁-y₂)²` — the
+latency in seconds is the sum of the links' latencies plus the values `val x` of the model's terms `x`, one per Vivaldi segment. -/
+theorem latency_is_sum_vivaldi_exact (P : Plat) (hT : TreeLike P) (V : Viv) (ρ : VTerm → Int)
+    (hV : FollowsVivaldi P V ρ) (hN : OnlyVivaldiAdds P V) (U : Nat)
+    (hρ : ∀ z a b ca cb, V.isViv z = true → V.coords a = some ca → V.coords b = some cb →
+      (vivaldiTerm ca cb).HasValue ((ρ (vivaldiTerm ca cb) : Rat) / U))
+    (f : Nat) (src dst : Np) (l : List Lk) (t : Int) (h : globalRoute P f src dst [] 0 = .ok (l, t)) :
+    ∃ segs, ∃ val : VTerm → Rat, specRoute P f src dst = .ok segs ∧ l = flatLinks segs ∧
+      (∀ x ∈ vivTerms V segs, x.HasValue (val x)) ∧
+      (t : Rat) / U = (sumLat P l : Rat) / U + ((vivTerms V segs).map val).sum := by
+  obtain ⟨segs, hs, hl, ht⟩ := latency_is_sum_vivaldi P hT V ρ hV hN f src dst l t h
+  refine ⟨segs, fun x => (ρ x : Rat) / U, hs, hl, ?_, ?_⟩
+  · intro x hx
+    obtain ⟨z, a, b, _, ca, cb, _, hz, hca, hcb, e⟩ := vivTerms_mem V segs x hx
+    rw [e]; exact hρ z a b ca cb hz hca hcb
+  · have e := ratCast_sum_div (vivTerms V segs) ρ U
+    rw [ht, Rat.intCast_add, ← e]
+    grind
+
+/-- **Accurate evaluation**: when `ρ` lands within `ε` of the rational bracket `[lo, hi]` of each term (the bracket the
+driver computes: floor / ceiling in latency units of `(lo√ + hsum)/1000`, `(hi√ + hsum)/1000` with `lo√ ≤ √rad ≤ hi√`,
+see `termBracket_sound`), the latency is within `n·ε` of `Σ links + Σ brackets`, `n` = number of Vivaldi segments. -/
+theorem latency_is_sum_vivaldi_bracket (P : Plat) (hT : TreeLike P) (V : Viv) (ρ : VTerm → Int)
+    (hV : FollowsVivaldi P V ρ) (hN : OnlyVivaldiAdds P V) (U m : Nat) (ε : Int)
+    (hρ : ∀ z a b ca cb, V.isViv z = true → V.coords a = some ca → V.coords b = some cb →
+      (termBracket U m (vivaldiTerm ca cb)).1 - ε ≤ ρ (vivaldiTerm ca cb) ∧
+      ρ (vivaldiTerm ca cb) ≤ (termBracket U m (vivaldiTerm ca cb)).2 + ε)
+    (f : Nat) (src dst : Np) (l : List Lk) (t : Int) (h : globalRoute P f src dst [] 0 = .ok (l, t)) :
+    ∃ segs, specRoute P f src dst = .ok segs ∧ l = flatLinks segs ∧
+      sumLat P l + ((vivTerms V segs).map (fun x => (termBracket U m x).1)).sum - (vivTerms V segs).length * ε ≤ t ∧
+      t ≤ sumLat P l + ((vivTerms V segs).map (fun x => (termBracket U m x).2)).sum + (vivTerms V segs).length * ε := by
+  obtain ⟨segs, hs, hl, ht⟩ := latency_is_sum_vivaldi P hT V ρ hV hN f src dst l t h
+  refine ⟨segs, hs, hl, ?_⟩
+  have hb : ∀ x ∈ vivTerms V segs, (termBracket U m x).1 - ε ≤ ρ x ∧ ρ x ≤ (termBracket U m x).2 + ε := by
+    intro x hx
+    obtain ⟨z, a, b, _, ca, cb, _, hz, hca, hcb, e⟩ := vivTerms_mem V segs x hx
+    rw [e]; exact hρ z a b ca cb hz hca hcb
+  have := sum_between (vivTerms V segs) ρ (fun x => (termBracket U m x).1) (fun x => (termBracket U m x).2) ε hb
+  omega
+
+/-- the value of a term is unique: `HasValue` specifies a function of the coordinates (√ of the radicand) -/
+theorem vivaldi_value_unique (t : VTerm) (v w : Rat) (hv : t.HasValue v) (hw : t.HasValue w) : v = w := by
+  obtain ⟨hv0, hv2⟩ := hv
+  obtain ⟨hw0, hw2⟩ := hw
+  have h1 : v * 1000 - t.hsum ≤ w * 1000 - t.hsum :=
+    rat_le_of_sq_le (v * 1000 - t.hsum) (w * 1000 - t.hsum) hw0 (by rw [hv2, hw2]; exact Rat.le_refl)
+  have h2 : w * 1000 - t.hsum ≤ v * 1000 - t.hsum :=
+    rat_le_of_sq_le (w * 1000 - t.hsum) (v * 1000 - t.hsum) hv0 (by rw [hv2, hw2]; exact Rat.le_refl)
+  grind
+
+/-- the model's term does not depend on the direction: `vivaldiTerm a b` and `vivaldiTerm b a` have the same values -/
+theorem vivaldi_term_symmetric (a b : Coord) (v : Rat) (h : (vivaldiTerm a b).HasValue v) :
+    (vivaldiTerm b a).HasValue v := by
+  unfold VTerm.HasValue vivaldiTerm at *
+  simp only at *
+  constructor
+  · grind
+  · obtain ⟨_, h2⟩ := h
+    grind
+
+/-- **the rational bracket of a term (what the driver compares the library's term with) contains the value of the
+term**: for any scale `m > 0` and any latency unit, `lo ≤ v · unit ≤ hi`, where `v` is the value in seconds of
+`vivaldiTerm a b` (specified by `HasValue`) and `(lo, hi) = termBracket unit m (vivaldiTerm a b)`. -/
+theorem vivaldi_value_in_bracket (unit m : Nat) (hm : 0 < m) (a b : Coord) (v : Rat)
+    (hv : (vivaldiTerm a b).HasValue v) :
+    ((termBracket unit m (vivaldiTerm a b)).1 : Rat) ≤ v * unit ∧
+      v * unit ≤ ((termBracket unit m (vivaldiTerm a b)).2 : Rat) :=
+  termBracket_sound unit m hm _ v hv
+
+/- ================================================================ cluster-like zones: which gateways are consulted -/
+
+/-- **The composition consults the gateways returned by the zone's local answer, not the zones' default gateways**
+(item: Torus / FatTree / Dragonfly zones whose leaves are netzones return `gw_src_ = get_gateway(src->id())`, the entry
+of ClusterBase's table filled by `fill_leaf_from_cb`): on a platform whose local answers name the gateway of every
+end that is a netzone, the route and latency of every pair are the same whatever the `NetZoneImpl` default gateways
+(`seal`'s rules, `set_gateway`) are — for every platform, every pair, both variants.  Together with
+`global_route_is_concat`: the route is a function of the answers `loc` (links, gw_src, gw_dst) alone; the kind of a
+zone appears nowhere in the composition. -/
+theorem route_independent_of_default_gateways (P Q : Plat) (h : SameButGateway P Q) (hG : GatewaysDeclared P)
+    (src dst : Np) : routeTo Q src dst = routeTo P src dst := by
+  unfold routeTo globalRoute
+  rw [h.depth]
+  exact globalRouteV_same _ P Q h hG _ src dst [] 0
+
+theorem global_route_independent_of_default_gateways (P Q : Plat) (h : SameButGateway P Q) (hG : GatewaysDeclared P)
+    (f : Nat) (src dst : Np) (links : List Lk) (lat : Int) :
+    globalRoute Q f src dst links lat = globalRoute P f src dst links lat :=
+  globalRouteV_same _ P Q h hG f src dst links lat
+
 /- ================================================================ concrete platforms: non-vacuity, regression
    witnesses of the fixed defects D4 and `bypass-tail-in-dijkstra-zone` -/
 
@@ -517,6 +635,139 @@ theorem global_route_is_concat_fixed_witness :
     globalRoute witnessBypassDijkstra 5 10 12 [] 0 =
       lift witnessBypassDijkstra 0 (fun l => l) (specRoute witnessBypassDijkstra 5 10 12) :=
   ⟨by decide, global_route_is_concat _ witnessBypassDijkstra_tree 5 10 12⟩
+
+/- ---- a platform with a Vivaldi zone: non-vacuity of the `latency_is_sum_vivaldi…` theorems -/
+
+def c10 : Coord := { x := 3000, y := 4000, h := -1000 }
+def c11 : Coord := { x := 0, y := 0, h := 2000 }
+
+/-- Z1 = Vivaldi { h = 10 at (3000, 4000, -1000) ms, g = 11 at (0, 0, 2000) ms }, peer links 1 (of h) and 2 (of g) -/
+def witnessViv : Viv where
+  isViv := fun z => z == 1
+  tab := fun _ => [(10, { up := [1], down := [1], upSet := true, downSet := true }),
+                   (11, { up := [2], down := [2], upSet := true, downSet := true })]
+  verts := fun _ => [10, 11]
+  coords := fun n => match n with | 10 => some c10 | 11 => some c11 | _ => none
+  routerOf := fun _ => none
+
+/-- evaluation of a term in whole seconds (exact on this platform: √(3000² + 4000²) = 5000 ms) -/
+def witnessEval (t : VTerm) : Int := (termBracket 1 1 t).1
+
+/-- root(0) Full { Z1(1) = `witnessViv`, Z2(2) Full { k = 12 } };  root: Z1@g → Z2@k = [5].  The answers of Z1 are
+the Vivaldi model's. -/
+def witnessVivaldi : Plat where
+  parent := fun z => match z with | 1 => some 0 | 2 => some 0 | _ => none
+  zoneOf := fun n => match n with | 10 => 1 | 11 => 1 | 12 => 2 | _ => 0
+  zoneNp := fun z => z
+  isZone := fun n => n < 3
+  gateway := fun _ => none
+  prepend := fun _ => false
+  loc := fun z a b =>
+    if z == 1 then (witnessViv.local (fun n => n < 3) 1 a b).map (VRoute.toRoute witnessEval)
+    else match z, a, b with
+      | 0, 1, 2 => some { links := [5], gwSrc := some 11, gwDst := some 12 }
+      | 0, 2, 1 => some { links := [5], gwSrc := some 12, gwDst := some 11 }
+      | _, _, _ => none
+  bypass := fun _ => []
+  lat := fun _ => 1
+  depth := 3
+
+theorem witnessVivaldi_tree : TreeLike witnessVivaldi := by
+  intro np
+  simp only [allEnglobing, witnessVivaldi]
+  split <;> decide
+
+theorem witnessVivaldi_follows : FollowsVivaldi witnessVivaldi witnessViv witnessEval := by
+  intro z hz a b
+  have hz1 : z = 1 := by simpa [witnessViv] using hz
+  subst hz1
+  rfl
+
+theorem witnessVivaldi_only : OnlyVivaldiAdds witnessVivaldi witnessViv := by
+  intro z a b r hz h
+  have hz1 : ¬ (z = 1) := by simpa [witnessViv] using hz
+  simp only [witnessVivaldi, beq_iff_eq, hz1, if_false] at h
+  split at h <;> cases h <;> rfl
+
+theorem witnessVivaldi_exact (z : Zn) (a b : Np) (ca cb : Coord) (_ : witnessViv.isViv z = true)
+    (ha : witnessViv.coords a = some ca) (hb : witnessViv.coords b = some cb) :
+    (vivaldiTerm ca cb).HasValue ((witnessEval (vivaldiTerm ca cb) : Rat) / (1 : Nat)) := by
+  simp only [witnessViv] at ha hb
+  split at ha <;> cases ha <;> split at hb <;> cases hb <;>
+    (show (0 : Rat) ≤ _ ∧ _ = _) <;> decide +kernel
+
+/-- non-vacuity of `latency_is_sum_vivaldi` (and of its `_exact` / `_bracket` forms): h → k crosses the Vivaldi segment
+(h, g): links `1 2 5` (1 s each), coordinate term (√(3000² + 4000²) + 1000 + 2000) / 1000 = 8 s: 11 s in all; the terms
+of the route are exactly `[vivaldiTerm c10 c11]`, with value 8 -/
+example : TreeLike witnessVivaldi ∧ FollowsVivaldi witnessVivaldi witnessViv witnessEval ∧
+    OnlyVivaldiAdds witnessVivaldi witnessViv ∧
+    routeTo witnessVivaldi 10 12 = .ok ([1, 2, 5], 11) ∧
+    routeTo witnessVivaldi 12 10 = .ok ([5, 2, 1], 11) ∧
+    (specRouteTo witnessVivaldi 10 12).toOption.map (vivTerms witnessViv) = some [vivaldiTerm c10 c11] ∧
+    witnessEval (vivaldiTerm c10 c11) = 8 ∧ (vivaldiTerm c10 c11).HasValue 8 ∧
+    (∀ z a b ca cb, witnessViv.isViv z = true → witnessViv.coords a = some ca → witnessViv.coords b = some cb →
+      (vivaldiTerm ca cb).HasValue ((witnessEval (vivaldiTerm ca cb) : Rat) / (1 : Nat))) ∧
+    termBracket 1 1 (vivaldiTerm c10 c11) = (8, 8) :=
+  ⟨witnessVivaldi_tree, witnessVivaldi_follows, witnessVivaldi_only, by decide +kernel, by decide +kernel,
+   by decide +kernel, by decide +kernel, by (show (0 : Rat) ≤ _ ∧ _ = _); decide +kernel, witnessVivaldi_exact,
+   by decide +kernel⟩
+
+/- ---- a cluster-like zone with netzone leaves: T(1) = "torus" { A(2) {10, 11}, B(3) {12, 13}, router 14 },
+   X(4) {15} next to it under root(0).  T's answers between its leaves carry the gateways of its table (A ↦ 11, B ↦ 12);
+   towards its router it answers nothing (`if (dst->is_router() || src->is_router()) return;`). -/
+def witnessTorusG (withRouterRoutes : Bool) (gw : Zn → Option Np) : Plat where
+  parent := fun z => match z with | 1 => some 0 | 2 => some 1 | 3 => some 1 | 4 => some 0 | _ => none
+  zoneOf := fun n => match n with | 10 => 2 | 11 => 2 | 12 => 3 | 13 => 3 | 14 => 1 | 15 => 4 | 2 => 1 | 3 => 1 | _ => 0
+  zoneNp := fun z => z
+  isZone := fun n => n < 5
+  gateway := gw
+  prepend := fun _ => false
+  loc := fun z a b => match z, a, b with
+    | 2, 10, 11 => some { links := [1], gwSrc := none, gwDst := none }
+    | 3, 12, 13 => some { links := [2], gwSrc := none, gwDst := none }
+    | 1, 2, 3 => some { links := [100], gwSrc := some 11, gwDst := some 12 }
+    | 1, 3, 2 => some { links := [100], gwSrc := some 12, gwDst := some 11 }
+    | 1, 2, 14 => if withRouterRoutes then some { links := [], gwSrc := none, gwDst := none } else none
+    | 0, 1, 4 => if withRouterRoutes then some { links := [7], gwSrc := some 14, gwDst := some 15 } else none
+    | _, _, _ => none
+  bypass := fun _ => []
+  lat := fun _ => 1
+  depth := 4
+
+def torusDefaults : Zn → Option Np := fun z => match z with | 2 => some 11 | 3 => some 12 | _ => none
+
+theorem witnessTorus_declared : GatewaysDeclared (witnessTorusG false torusDefaults) := by
+  intro z a b r h
+  simp only [witnessTorusG] at h ⊢
+  split at h <;> first | (cases h; simp) | (simp at h)
+
+/-- non-vacuity of `route_independent_of_default_gateways`: between the leaves of the torus the route `1 100 2` goes
+through the gateways of the torus' table, with or without default gateways on the leaves -/
+example : SameButGateway (witnessTorusG false torusDefaults) (witnessTorusG false (fun _ => none)) ∧
+    GatewaysDeclared (witnessTorusG false torusDefaults) ∧
+    routeTo (witnessTorusG false torusDefaults) 10 13 = .ok ([1, 100, 2], 3) ∧
+    routeTo (witnessTorusG false (fun _ => none)) 10 13 = .ok ([1, 100, 2], 3) :=
+  ⟨⟨rfl, rfl, rfl, rfl, rfl, rfl, rfl, rfl, rfl⟩, witnessTorus_declared, by decide, by decide⟩
+
+/-- the hypothesis `GatewaysDeclared` is needed: towards the torus' router the zone's answer has no gateway and the
+composition falls back on the leaf's default gateway (`(*it)->get_gateway()`) — `1 7` with it, an error without -/
+theorem route_depends_on_default_gateway_when_answer_has_none :
+    SameButGateway (witnessTorusG true torusDefaults) (witnessTorusG true (fun _ => none)) ∧
+    ¬ GatewaysDeclared (witnessTorusG true torusDefaults) ∧
+    routeTo (witnessTorusG true torusDefaults) 10 15 = .ok ([1, 7], 2) ∧
+    routeTo (witnessTorusG true (fun _ => none)) 10 15 = .error .noGateway :=
+  ⟨⟨rfl, rfl, rfl, rfl, rfl, rfl, rfl, rfl, rfl⟩,
+   fun h => absurd ((h 1 2 14 { links := [], gwSrc := none, gwDst := none } rfl).1 (by decide)) (by decide),
+   by decide, by decide⟩
+
+/-- non-vacuity of `vivaldi_value_unique`, `vivaldi_term_symmetric`, `vivaldi_value_in_bracket`: the 3-4-5 triangle with
+heights -1000 and 2000 ms: value 8 s in both directions, bracket [8, 8] at unit 1 s; and an irrational case: the bracket
+of (1,1)–(0,0) at 2^-50 s is one unit wide -/
+example : (vivaldiTerm c10 c11).HasValue 8 ∧ (vivaldiTerm c11 c10).HasValue 8 ∧
+    termBracket 1 1 (vivaldiTerm c10 c11) = (8, 8) ∧
+    termBracket (2 ^ 50) (2 ^ 64) (vivaldiTerm ⟨1, 1, 0⟩ ⟨0, 0, 0⟩) = (1592262918131, 1592262918132) :=
+  ⟨by (show (0 : Rat) ≤ _ ∧ _ = _); decide +kernel, by (show (0 : Rat) ≤ _ ∧ _ = _); decide +kernel,
+   by decide +kernel, by decide +kernel⟩
 
 /-- non-vacuity of `symmetric_route_reversed`: a 3-link inter-zone route with gateways -/
 example : ∃ t', fullAddRoute true [] 1 2 (some 11) (some 13) [5, 6, 7] true = some t' ∧
